@@ -420,15 +420,19 @@ def buildPacketImpl (sz : Sizes) (c : Conn) (t : Int) (sendKeepAlive : Bool) (de
     | .ok pkt => (c2, .ok (some pkt))
     | .error e => (c2, .error (Err.ofWire e))
 
+/-- bookkeeping of `_build_packet` once a packet exists -/
+def finishBuild (c : Conn) (t : Int) : Conn :=
+  { c with lastSend := t, lastKeepAlive := t, assembled := c.assembled + 1 }
+
 /-- `_build_packet()` at clock value `t` -/
 def buildPacket (sz : Sizes) (c : Conn) (t : Int) : Conn × Except Err (Option Packet) :=
   if t - c.lastSend < c.sendInterval then (c, .ok none)
   else
-    let ska := decide (t - c.lastKeepAlive > c.keepAlive)
-    match buildPacketImpl sz c t ska c.keepAlive with
-    | (c1, .ok (some pkt)) =>
-      ({ c1 with lastSend := t, lastKeepAlive := t, assembled := c1.assembled + 1 }, .ok (some pkt))
-    | r => r
+    match (buildPacketImpl sz c t (decide (t - c.lastKeepAlive > c.keepAlive)) c.keepAlive).2 with
+    | .ok (some pkt) =>
+      (finishBuild (buildPacketImpl sz c t (decide (t - c.lastKeepAlive > c.keepAlive)) c.keepAlive).1 t,
+       .ok (some pkt))
+    | other => ((buildPacketImpl sz c t (decide (t - c.lastKeepAlive > c.keepAlive)) c.keepAlive).1, other)
 
 /-! ### receiving -/
 
